@@ -56,3 +56,11 @@ package blocker
 //@   loop 1 invariant forall k string :: present(b.peers, k) ==> old(present(b.peers, k)) && b.peers[k] == old(b.peers[k]) && b.peers[k] != nil
 //@   loop 1 invariant forall k string :: old(present(b.peers, k)) && !present(b.peers, k) ==> 0 < int(old(b.peers[k].blockAfter)) && int(old(b.peers[k].blockAfter)) < now(b)
 //@   loop 1 invariant forall k string :: present(b.peers, k) ==> b.peers[k].blockAfter == old(b.peers[k].blockAfter) && b.peers[k].address == old(b.peers[k].address)
+
+//@ # the clock itself: the sequencer goroutine counts a tick only if, at that tick, the network
+//@ # answered "available" (call-site obligation on every increment of the sequence counter)
+//@ func New$1
+//@   property C26
+//@   requires b != nil && b.blocklister != nil
+//@   callassert Uint64.Inc tick-counted-only-while-available: lastStatus == int(p2p.NetworkStatusAvailable)
+//@   loop 1 invariant b != nil && b.blocklister != nil && b.peers == old(b.peers)
